@@ -89,19 +89,11 @@ def scribble(obj, depth=0, seen=None):
             for x in obj:
                 n += scribble(x, depth + 1, seen)
             return n
-        if type(obj).__name__ == "Wavefunction":
-            # a wavefunction handed out is the caller's too: a LEGAL edit through its public item assignment (the
-            # amplitudes rotated by one place and multiplied by i: the norm stays 1) - a later simulation that starts
-            # from a state shared with this object would start from the edited one
-            try:
-                amps = np.asarray(obj.amplitudes)
-                if amps.dtype.kind in "fc" and amps.size >= 2:
-                    flat = amps.reshape(-1)
-                    obj[:] = (np.roll(flat, 1) * 1j).reshape(amps.shape)
-                    n += 1
-            except Exception:
-                pass
-            return n
+        # (a Wavefunction is NOT edited here: the wavefunction a simulator returns for an operation-free circuit wraps
+        # the very array the caller passed as initial state - np.asarray does not copy - so an edit of the result would
+        # be an edit of the caller's own argument; a first version of this did just that and made C20 report the
+        # unchanged tree, DESIGN 9.18.  C01's history class edits the state of an idle register obtained from the
+        # DEFAULT initial state instead)
         for c in _lib_containers(obj):
             n += scribble(c, depth + 1, seen)
     except Exception:
